@@ -198,6 +198,22 @@ def check_selector(ctx):
               "the field selector is stored without the bounds validation against the field table: an "
               "out-of-range field index seeks past the FAB and returns another box's bytes",
               where=loc(fi, stores[0]))
+    # VALIDATE-RAW: the bounds probe must see the selector as given; wrapping a negative index (k += N, k %= N)
+    # *before* the probe turns every k in [-2N, -N) into a valid index instead of an error
+    if found is not None:
+        probe_line = min((s.lineno for b in found.body for s in ast.walk(b)
+                          if isinstance(s, ast.Subscript) and norm(s.slice) == fa), default=None)
+        early = [n for n in walk_no_nested(fi.node)
+                 if ((isinstance(n, ast.AugAssign) and norm(n.target) == fa) or
+                     (isinstance(n, ast.Assign) and norm(n.targets[0]) == fa and isinstance(n.value, ast.BinOp)
+                      and any(isinstance(x, ast.Name) and x.id == fa for x in ast.walk(n.value))))
+                 and probe_line is not None and n.lineno < probe_line]
+        ctx.check(not early, f"{P}.BOUNDS-PRESENT", site,
+                  "the bounds validation sees the selector as given (no arithmetic normalisation before it)",
+                  f"`{norm(early[0]) if early else ''}` rewrites the selector before it is validated against the field "
+                  f"table: an out-of-range negative index (-2N <= k < -N) is wrapped into range and answered with "
+                  f"another field's data instead of being refused", key="validate-raw",
+                  where=loc(fi, early[0]) if early else None, semantic=True)
     # V-RANGE: negative integers pass the numpy-style check but make the seek polynomial 8*C*k negative
     norm_ok = False
     for n in walk_no_nested(fi.node):
